@@ -36,7 +36,7 @@ impl SubCheck for Verdicts {
         "verdicts"
     }
     fn cases(&self, tier: Tier) -> u32 {
-        tier.pick(4000, 80000)
+        tier.pick(8000, 120000)
     }
     fn strategy(&self, tier: Tier) -> BoxedStrategy<GCase> {
         let mut p = GraphParams::small();
